@@ -104,6 +104,7 @@ class IpSession:
         self.verify: hap.VerifyResponder | None = None
         self.setup: hap.SetupResponder | None = None
         self.subscriptions: set[tuple[int, int]] = set()
+        self.ev_asked: set[tuple[int, int]] = set()
         self.controller: str | None = None
         self.plain_requests: list[bytes] = []  # raw request bytes as decoded by this side
         self.c2a_frames: list[int] = []  # plaintext length of each received frame
@@ -321,6 +322,8 @@ class IpSession:
             if (aid, iid) not in acc.values:
                 st = -70409
             elif "ev" in it:
+                if it["ev"]:
+                    self.ev_asked.add((aid, iid))  # asked for events on this connection, whatever the answer
                 if "ev" not in acc.perms[(aid, iid)]:
                     st = -70406
                 else:
